@@ -10,6 +10,7 @@
 -/
 import PyhamModel.Lemmas.CapstoneWF
 import PyhamModel.Lemmas.Compose
+import PyhamModel.Model.Sax
 import PyhamModel.Lemmas.SessionLemmas
 import PyhamModel.Lemmas.HistoryProfile
 import PyhamModel.Lemmas.LeafProfile
@@ -461,5 +462,19 @@ theorem reported_counts_evaluated :
       (simpleEx.fams.map fun f => reportedAt false [] [0, 1] f.1 none f.2).sum =
       (simpleEx.fams.map fun f => if f.1.isSuffixOf [] then lineagesAt [0, 1] f.1 f.2 else 0).sum ∧
     0 < (simpleEx.fams.map fun f => reportedAt true [] [0, 1] f.1 none f.2).sum := by decide +kernel
+
+/-- non-vacuity of `C01_species_after_groups`: a document whose last species section (declaring an unreferenced gene) follows
+    the groups section meets both hypotheses -- every section resolves, no late gene is referenced -- and the streaming run of
+    that document succeeds -/
+theorem late_species_hypotheses_met :
+    let T : STree := .node "R" [.node "A" [], .node "B" []]
+    let early : List Species := [{ name := "A", genes := [{ id := "a1", xrefs := [] }, { id := "a2", xrefs := [] }] }]
+    let late : List Species := [{ name := "B", genes := [{ id := "b9", xrefs := [] }] }]
+    let groups : List Elem := [.og (some "1") none [.pg none [.ref "a1" none, .ref "a2" none]]]
+    (match declareSpecies T .own (fun _ => true) (early ++ late) [] with | .ok all => all.length == 3 | .error _ => false) = true ∧
+    ((refsOfL groups).all fun id => late.all fun s => s.genes.all fun g => g.id != id) = true ∧
+    (match Sax.drun T .own (fun _ => true) none (Sax.spEvents early ++ ((Sax.eventsL groups).map .grp ++ Sax.spEvents late)) {} with
+      | .ok d => d.genes.length == 3 && d.ms.tops.length == 1 | .error _ => false) = true := by
+  decide +kernel
 
 end Pyham.Witness
